@@ -135,6 +135,76 @@ pub fn order(ctx: &mut Ctx) {
     ctx.next_id = cases.len() as u64;
 }
 
+/// carry — the observable state determines the behaviour: for every ordered pair (a, b) of RAND-free,
+/// id-free instructions, executing b right after a on the LIVE state object gives the same result as
+/// executing b on a state REBUILT from what a left behind (every stack, queue, graph, binding, flag and the
+/// configuration). Anything an instruction leaves behind outside the observable state (a cached cursor, a
+/// stale buffer cell, a flag in a side structure) and that a later instruction picks up shows here.
+pub fn carry(ctx: &mut Ctx) {
+    let mut real = Real::new();
+    let names: Vec<String> = real.names().into_iter().filter(|n| !excluded(n) && n != "EXEC.CMD").collect();
+    let mut b2 = crate::alpha::populated();
+    b2.i = vec![1, 2, 0, 3, 2];
+    b2.f = vec![0.5, 2.0, -1.5];
+    b2.c = vec![Tree::L(vec![Tree::B(true), Tree::I(10), Tree::F(0.5)]), Tree::L(vec![Tree::I(1), Tree::L(vec![Tree::I(2), Tree::I(3)])]), Tree::I(1), Tree::L(vec![])];
+    let bases = vec![("populated", crate::alpha::populated()), ("populated-small-ints", b2)];
+    ctx.extra.push(("instructions".into(), crate::core::J::Int(names.len() as i64)));
+    for (bl, base) in &bases {
+        for a in &names {
+            for b in &names {
+                let id = match ctx.take() {
+                    Some(id) => id,
+                    None => continue,
+                };
+                ctx.transitions += 2;
+                ctx.states += 1;
+                let mut m0 = base.clone();
+                m0.e.insert(0, Tree::Ins(b.clone()));
+                m0.e.insert(0, Tree::Ins(a.clone()));
+                let Real { iset, icache } = &mut real;
+                let r = guarded(|| {
+                    let horizon = crate::core::DRAW_HORIZON.load(std::sync::atomic::Ordering::Relaxed);
+                    let mut st = build(&m0);
+                    pushr::push::graph::verif_set_node_counter(crate::refmodel::next_node_id());
+                    pushr::push::verif::install_clock(0);
+                    pushr::push::verif::install_script(vec![], horizon);
+                    PushInterpreter::step(&mut st, iset, icache);
+                    let mid = observe(&st);
+                    let counter = pushr::push::graph::verif_node_counter();
+                    pushr::push::verif::install_script(vec![], horizon);
+                    PushInterpreter::step(&mut st, iset, icache);
+                    let live = observe(&st);
+                    // the same second step on a state rebuilt from the observation
+                    let mut st2 = build(&mid);
+                    pushr::push::graph::verif_set_node_counter(counter);
+                    pushr::push::verif::install_script(vec![], horizon);
+                    PushInterpreter::step(&mut st2, iset, icache);
+                    (mid, live, observe(&st2))
+                });
+                pushr::push::verif::clear_script();
+                pushr::push::verif::clear_clock();
+                let (okey, v) = match r {
+                    // a crash is C01's business
+                    Err(p) => (format!("PANIC {}", panic_class(&p)), Verdict::Pass),
+                    Ok((mid, live, rebuilt)) => {
+                        let lk = live.key();
+                        if lk == rebuilt.key() {
+                            (format!("{}|{}|{}", a, b, h64(&lk)), Verdict::Pass)
+                        } else {
+                            (
+                                format!("{}|{}|differs", a, b),
+                                Verdict::fail(b, "depends-on-unobservable-state", format!("after {} the state is {{{}}}; {} executed on the live object changes {:?}, on an equal rebuilt state {:?}", a, crate::core::trunc(&mid.key(), 400), b, mid.diff(&live), mid.diff(&rebuilt))),
+                            )
+                        }
+                    }
+                };
+                ctx.nontrivial_mark(&okey);
+                ctx.record(id, &okey, v, || format!("{} then {} on the {} base", a, b, bl));
+            }
+        }
+    }
+}
+
 // ---------------------------------------------------------------------------
 // program corpus (RAND-free, id-free)
 
@@ -181,6 +251,10 @@ pub fn corpus_big() -> Vec<Tree> {
         let mut items: Vec<Tree> = (0..n).map(|k| Tree::I(k as i32)).collect();
         items.push(Tree::ins("INTEGER.+"));
         v.push(Tree::L(items));
+        if n == 300 {
+            // two sublists of 300: the state grows by 299 twice (each below the default growth cap of 500)
+            v.push(Tree::L(vec![Tree::L((0..300).map(|_| Tree::I(1)).collect()), Tree::L((0..300).map(|_| Tree::I(2)).collect())]));
+        }
         v.push(Tree::L((0..n).map(|k| if k % 7 == 3 { Tree::L(vec![Tree::I(k as i32), Tree::ins("INTEGER.DUP")]) } else { Tree::ins("NOOP") }).collect()));
     }
     v
@@ -301,18 +375,36 @@ pub fn clidump(ctx: &mut Ctx) {
             PushParser::parse_program(&mut st, iset, &text);
             // the library's loader (the one PushInterpreter::run uses), not the front end's
             PushInterpreter::copy_to_code_stack(&mut st);
+            // is the program inside every documented budget of the default configuration? (decided by an
+            // accounting of single steps on a copy: < 1000 steps, no single step grows the state by more than 500)
+            let mut probe = PushState::new();
+            PushParser::parse_program(&mut probe, iset, &text);
+            PushInterpreter::copy_to_code_stack(&mut probe);
             let mut steps = 0;
             let mut done = false;
-            while steps < 400 {
-                if PushInterpreter::step(&mut st, iset, icache) {
+            let mut in_budget = true;
+            while steps < 1000 {
+                let before = probe.size();
+                if PushInterpreter::step(&mut probe, iset, icache) {
                     done = true;
                     break;
                 }
+                if probe.size() > before + 500 {
+                    in_budget = false;
+                }
                 steps += 1;
             }
-            (done, st.exec_stack.to_string(), st.code_stack.to_string(), st.int_stack.to_string())
+            // the library's answer: PushInterpreter::run under the default limits (virtual clock: no time passes)
+            pushr::push::verif::install_clock(0);
+            st.code_stack.flush();
+            let outcome = PushInterpreter::run(&mut st, iset);
+            pushr::push::verif::clear_clock();
+            (done && in_budget && steps < 990, format!("{:?}", outcome), st.exec_stack.to_string(), st.code_stack.to_string(), st.int_stack.to_string())
         });
-        if let Ok((true, e, c, i)) = r {
+        if let Ok((true, outcome, e, c, i)) = r {
+            // an in-budget program that the library does not run to completion differs from the front end (which
+            // has no limits) by definition: reported through the EXEC column
+            let e = if outcome == "NoErrors" { e } else { format!("<library run stopped with {}> {}", outcome, e) };
             // single-line fields only (the CLI prints one line per stack)
             if !e.contains('\n') && !c.contains('\n') && !i.contains('\n') {
                 println!("CLICASE\t{}\t{}\t{}\t{}", text, e, c, i);
@@ -328,6 +420,7 @@ pub fn run(ctx: &mut Ctx) {
         "order" => order(ctx),
         "orderrev" => order_rev(ctx),
         "pairs" => pairs(ctx),
+        "carry" => carry(ctx),
         "clidump" => clidump(ctx),
         f => panic!("unknown family {}", f),
     }
